@@ -15,7 +15,6 @@ package main
 // trace the Lean model computes from the same read results and verdicts.
 
 import (
-	"bytes"
 	"fmt"
 	"io"
 	"net"
@@ -631,7 +630,9 @@ func c03RealSockets(out *vlib.Out, n int, wg *sync.WaitGroup) {
 					srv[c.RemoteAddr().String()] = run
 					srvMu.Unlock()
 					w.cm.handleNewTCPConn(w.rm, conn, net.ParseIP(c34PhMany))
+					srvMu.Lock()
 					run.tRet, run.returned = time.Now(), true
+					srvMu.Unlock()
 					c.Close() // what handleNewConn's deferred Close does
 				}()
 			}
@@ -685,8 +686,9 @@ func c03RealSockets(out *vlib.Out, n int, wg *sync.WaitGroup) {
 				for k := 0; k < 4000; k++ {
 					srvMu.Lock()
 					run = srv[local]
+					finished := run != nil && run.returned
 					srvMu.Unlock()
-					if run != nil && run.returned {
+					if finished {
 						break
 					}
 					time.Sleep(10 * time.Millisecond)
@@ -694,7 +696,10 @@ func c03RealSockets(out *vlib.Out, n int, wg *sync.WaitGroup) {
 				cs := c03Case{phantom: c34PhMany, geo: "ok", class: "real-socket-" + p.style, world: -100}
 				rp := fmt.Sprintf("c03real|seed=%d|style=%s|segs=%d|data=%s", vlib.Seed(), p.style, p.segs, vlib.Hex(p.data))
 				out.Checked()
-				if run == nil || !run.returned {
+				srvMu.Lock()
+				finished := run != nil && run.returned
+				srvMu.Unlock()
+				if !finished {
 					c03Fail(out, "C03:hang", "real socket: the handler had not returned after 40 s", rp)
 					return
 				}
@@ -738,6 +743,7 @@ func TestVerifC03(t *testing.T) {
 		return
 	}
 	thorough := vlib.Tier() == "thorough"
+	out.Note("C03: bit-flip probes exclude the two padding bits of the prefix tag (byte 31, bits 6-7, masked by the station) and, for obfs4, the padding/MAC (the mark stays valid); GeoIP-failure cases are correspondence-only (hypothesis of the property)")
 	var bg sync.WaitGroup
 	c03ErrorPath(out, vlib.Budget(2, 8), &bg)
 	c03RealSockets(out, vlib.Budget(40, 300), &bg)
@@ -766,6 +772,10 @@ func TestVerifC03(t *testing.T) {
 		go func(wi int) {
 			defer wg.Done()
 			for c := range chans[wi] {
+				if c03Slow.Load() >= 12 {
+					out.Count("skipped-after-12-slow-probes")
+					continue
+				}
 				c.world = wi
 				c03Run(out, worlds[wi], &c, 60*time.Second)
 			}
@@ -864,5 +874,4 @@ func c03Replay(t *testing.T, out *vlib.Out, path string) {
 	for _, f := range c03Fails {
 		fmt.Fprintln(os.Stderr, "REPLAY c03 ORACLE FAILURE:", f)
 	}
-	_ = bytes.Equal
 }
